@@ -103,3 +103,27 @@ func VH_C11_DataFileFindsPartial() {
 	fi, err := fw.DataFile()
 	vAssert("found_iff_complete_or_partial", (err == nil && fi != nil) == (complete || partial))
 }
+
+// Rename (set-file-info gives the wrapper a new name, then moves it within its folder): the data file and every
+// existing side file end up under the new name; nothing is left under the old one.
+func VH_C11_RenameCarriesForks() {
+	src := c11Files("/r/a")
+	st := &vTreeStore{}
+	st.paths = append(st.paths, src[0])
+	var had [4]bool
+	had[0] = true
+	for i := 1; i < 4; i++ {
+		had[i] = vBool("side_file_exists")
+		if had[i] {
+			st.paths = append(st.paths, src[i])
+		}
+	}
+	fw := &fileWrapper{fs: st, Name: "g.txt", path: "/r/a", dataPath: src[0], incompletePath: src[1], rsrcPath: src[2], infoPath: src[3]}
+	err := fw.Move("/r/a")
+	vAssert("rename_ok", err == nil)
+	dst := []string{"/r/a/g.txt", "/r/a/g.txt.incomplete", "/r/a/.rsrc_g.txt", "/r/a/.info_g.txt"}
+	for i := 0; i < 4; i++ {
+		vAssert("nothing_left_under_old_name", !st.has(src[i]))
+		vAssert("side_file_follows_new_name_iff_it_existed", st.has(dst[i]) == had[i])
+	}
+}
